@@ -41,7 +41,8 @@ inductive Act where
                              --   listen queue, the listening socket stays readable and the loop comes round again
   | loopFail                 -- `waitInput` returned a negative value (select error / closed socket): the loop gives up
   | loopEnd                  -- the accept thread finishes: `Thread::begin` writes `_threadFinished` into the
-                             --   `SockServerThread` object that the server owns and frees in its destructor
+                             --   `SockServerThread` object that the server owns and frees in its destructor (since 8766189: the virtual call
+                             --   `ended()` on that object is the thread's last use of it; the flag itself lives in the shared state)
   | reqStop
   | readRunning
   | readNum
